@@ -472,6 +472,28 @@ theorem C06_stream_over_any_chunking (ms : List Msg) (hw : ∀ m ∈ ms, m.Whole
   simp only [hd, if_true] at this
   rw [this]; rfl
 
+/-- the same for a Decoder that was handed an io.ByteScanner (no buffer of its own): the messages one by one, then raw io.EOF,
+    and after each of them the SOURCE itself stands at the first byte of the next message -/
+theorem C06_stream_unbuffered (ms : List Msg) (hw : ∀ m ∈ ms, m.Whole) (src : Io.Src) (hi : (Io.Stack.src src).Inv)
+    (hflat : src.flat = concatMsgs ms) (hfin : src.fin = .eof) :
+    (Stk.decodeStream (ms.map Msg.sd) ⟨.src src, 0⟩).1 = ms.map (fun m => (m.value, m.bytes.length)) ∧
+    (Stk.decodeStream (ms.map Msg.sd) ⟨.src src, 0⟩).2.1 = none ∧
+    (Stk.decodeStream (ms.map Msg.sd) ⟨.src src, 0⟩).2.2.s.content = [] ∧
+    (∀ sd : SD, sd.descOk = true →
+      viewS (Stk.decStruct sd.tag sd (Stk.decodeStream (ms.map Msg.sd) ⟨.src src, 0⟩).2.2) = .err .eof) := by
+  have hsim : Stk.Sim ⟨concatMsgs ms ++ [], .eof, 0⟩ ⟨.src src, 0⟩ :=
+    ⟨by simp [Io.Stack.content, hflat], by simp [Io.Stack.fin, hfin], hi, by trivial, rfl⟩
+  obtain ⟨g1, g2, g3⟩ := Stk.stream_sim (ms.map Msg.sd) _ _ hsim
+  rw [C06_stream ms hw [] .eof] at g1 g2 g3
+  simp only at g1 g2 g3
+  refine ⟨g1.symm, g2.symm, g3.1.symm, ?_⟩
+  intro sd hd
+  rw [(C06_decode_step sd sd.tag _ _ g3).1]
+  have := C06_clean_eof sd hd
+  unfold decodeSD decodeTop at this
+  simp only [hd, if_true] at this
+  rw [this]; rfl
+
 /-- non-vacuity: a Protocol Version structure (two required integers) delivered in seven reads - single bytes, empty reads, a
     split inside a length field, the last bytes together with EOF, and three bytes of a following message - decodes through the
     real stack to the value, the count 40, and a Decoder standing at those three bytes -/
